@@ -55,6 +55,8 @@ func C04(r *core.Run) {
 	// "the same schema is obtained when reflecting the generated .proto text": an annotation value that is set — a zero
 	// bound, `unique: false` — is printed; presence, not the value, decides
 	presentNeverSkipped(r, printRel+"/optionreflect", "walkOptionMessage", "every populated option field is printed")
+	// descriptions: the comment of an element is registered under the path of that element
+	commentPathNumbers(r)
 	slotAgreement(r)
 	boundPolarity(r)
 	extStructCompat(r)
@@ -266,6 +268,42 @@ func boundPolarity(r *core.Run) {
 		if !known1 || !known2 || thenExcl == elseExcl {
 			o.Fail("cannot tell from the reflector which of %s / %s is the exclusive member", thenW, elseW)
 			return true
+		}
+		// the flag that decides is the flag of this bound: Lt/Lte belong to the maximum, Gt/Gte to the minimum
+		{
+			flags := map[string]bool{}
+			var collect func(e ast.Expr, depth int)
+			collect = func(e ast.Expr, depth int) {
+				ast.Inspect(e, func(m ast.Node) bool {
+					switch y := m.(type) {
+					case *ast.SelectorExpr:
+						name := strings.TrimPrefix(y.Sel.Name, "Get")
+						if name == "ExclusiveMaximum" || name == "ExclusiveMinimum" {
+							flags[name] = true
+						}
+					case *ast.Ident:
+						if depth < 3 {
+							if def := soleDefinition(info, y); def != nil {
+								collect(def, depth+1)
+							}
+						}
+					}
+					return true
+				})
+			}
+			collect(ifs.Cond, 0)
+			want := "ExclusiveMinimum"
+			if strings.Contains(thenW, "_Lt") {
+				want = "ExclusiveMaximum"
+			}
+			other := "ExclusiveMaximum"
+			if want == other {
+				other = "ExclusiveMinimum"
+			}
+			if flags[other] && !flags[want] {
+				o.Fail("the choice between %s and %s is made by %s, the flag of the other bound: a range open at one end and closed at the other is compiled with the two inclusivities swapped at this end", thenW, elseW, other)
+				return true
+			}
 		}
 		// then-branch taken when cond true
 		okAll := true
